@@ -68,7 +68,22 @@ func (d vDeco) WrapConnection(data *bytes.Buffer, c net.Conn, phantom net.IP, rm
 			vc.d.mu.Lock()
 			vc.d.matched = d.name
 			vc.d.matchedReg = reg
+			sweep := vc.d.sweepOnMatch
 			vc.d.mu.Unlock()
+			vc.d.log(e)
+			if sweep {
+				// the station's 3-minute sweeper runs right now - after the lookup found the registration, before the handler
+				// marks it: the registration has just outlived its 10 unused minutes
+				if m, ok := rm.(*cj.RegistrationManager); ok {
+					if dr, ok := reg.(*cj.DecoyRegistration); ok && cj.VerifBackdate(m, dr, 11*time.Minute) {
+						m.RemoveOldRegistrations()
+						if _, tracked := cj.VerifIsUsed(m, dr); !tracked {
+							vc.d.log(vEvent{"a": "Swept"})
+						}
+					}
+				}
+			}
+			return reg, w, err
 		} else if r == "error" {
 			e["err"] = err.Error()
 		}
@@ -351,6 +366,21 @@ type vCase struct {
 	PaceMs    int     `json:"pace_ms"`
 	PeerClose bool    `json:"peer_close"`
 	StartMs   int     `json:"start_ms"` // the connection arrives this long after the batch started
+	// the expiry sweeper removes the matched registration between the transport's lookup and the handler's MarkActive
+	SweepOnMatch bool `json:"sweep_on_match"`
+}
+
+// vGuard runs f, a query of the registration table, and reports whether it came back: a table whose lock was leaked would
+// otherwise take the whole driver with it
+func vGuard(f func()) bool {
+	done := make(chan struct{})
+	go func() { defer close(done); f() }()
+	select {
+	case <-done:
+		return true
+	case <-time.After(8 * time.Second):
+		return false
+	}
 }
 
 func vGarbage(gen string, n int, id string) []byte {
@@ -443,9 +473,14 @@ func (w *vWorld) runCase(cs *vCase) map[string]any {
 	}
 	d := newVDuplex(&net.TCPAddr{IP: srcIP, Port: 40077}, &net.TCPAddr{IP: dst, Port: 443}, cs.Cuts, time.Duration(cs.PaceMs)*time.Millisecond)
 	d.flipAt, d.flipEnd, d.truncAt = cs.Stream.Flip, cs.Stream.FlipEnd, cs.Stream.Trunc
+	d.sweepOnMatch = cs.SweepOnMatch
 	st, peer := &vConn{d}, &vPeer{d: d}
-	occT, occV := cj.VerifTracked(w.rm, dst)
-	rec := map[string]any{"case": cs.ID, "occ_real": occT, "valid_real": occV}
+	var occT, occV int
+	rec := map[string]any{"case": cs.ID}
+	if !vGuard(func() { occT, occV = cj.VerifTracked(w.rm, dst) }) {
+		rec["registry_blocked"] = true
+	}
+	rec["occ_real"], rec["valid_real"] = occT, occV
 
 	done := make(chan struct{})
 	go func() {
@@ -657,7 +692,10 @@ func (w *vWorld) runCase(cs *vCase) map[string]any {
 			if fin["matched_reg"] == nil {
 				fin["matched_reg"] = "unknown:" + hex.EncodeToString(mr.Keys.SharedSecret[:4])
 			}
-			used, tracked := cj.VerifIsUsed(w.rm, mr)
+			var used, tracked bool
+			if !vGuard(func() { used, tracked = cj.VerifIsUsed(w.rm, mr) }) {
+				rec["registry_blocked"] = true
+			}
 			fin["used"], fin["tracked"] = used, tracked
 		}
 	}
